@@ -356,6 +356,33 @@ def run(tier, replay=None):
         ls = trace_lines(res)
         if ls:
             items.append((sc["id"], ls))
+    # ---- a server-issued request delivered on the newest stream stays pending while an OLDER stream of the session is torn down
+    # (GetStream, last sentence: a stream that ends removes only itself), and the answer the session then posts is accepted
+    pend = [{"id": "pend%d" % n, "gated": True, "steps": [{"op": "open", "arg": "c1"}, {"op": "proceed", "arg": "c1"}] + extra + [
+                {"op": "open", "arg": "c2"}, {"op": "proceed", "arg": "c2"}, {"op": "sreqstart", "arg": "q1"},
+                {"op": "cleanupbegin", "arg": "c1"}, {"op": "cleanup", "arg": "c1"}, {"op": "sreqcheck", "arg": "q1"}]}
+            for n, extra in enumerate(([], [{"op": "sstart", "arg": "k1", "kind": "notif"}, {"op": "sacq", "arg": "k1"}, {"op": "send", "arg": "k1"}]))]
+    pres = run_schedules(pend, nproc=2)
+    for sc in pend:
+        res = pres[sc["id"]]
+        run_.evaluations += 1
+        total += 1
+        rp = {"schedule": sc, "result": res, "spec": "GetStream (ExitRemovesOnlySelf)"}
+        if res.get("crash"):
+            run_.diverge("process-crash", "the server process crashed in the pending-request schedule: %s" % res["crash"][:1200], rp)
+            continue
+        if res.get("stuck"):
+            run_.diverge("open-gets-no-headers", res["stuck"], rp)
+            continue
+        if res.get("unrealised"):
+            unreal += 1
+            continue
+        chk = [o for o in res["obs"] if o["op"] == "sreqcheck"]
+        run_.nontriv(["pending-request", sc["id"]])
+        if not chk or not chk[0]["ok"]:
+            run_.diverge("pending-request ended-by-older-stream's-exit",
+                         "a server request delivered on the newest stream was %s while an older stream of the session was torn down"
+                         % (chk[0].get("err") if chk else "not observed"), rp)
     if unreal > 0.2 * total:
         first = [results[s["id"]]["unrealised"] for s in scheds if results[s["id"]].get("unrealised")][:3]
         raise common.Broken("%d of %d schedules could not be realised on the code, e.g. %s" % (unreal, total, first))
